@@ -213,7 +213,9 @@ def part_b(ctx, nruns):
         if R.random() < 0.25:
             ext = R.choice([".hh", ".xyz"])
             extra += ["--output-extension", ext]
-        if R.random() < 0.3:
+        if R.random() < 0.3 and lang in ("py", "html"):
+            # the built-in C and C++ template sets have no Namespace/Any template: nnvg refuses the option there ("No template found"),
+            # which is a refused configuration, not a mapping of types onto files
             extra += ["--generate-namespace-types"]
         before = common.snapshot(sb)
         results = genrun.nnvg_all_roots(os.path.join(sb, "in", "dsdl"), roots, outdir, lang, extra=extra, cwd=os.path.join(sb, "work"))
@@ -265,7 +267,7 @@ def part_b(ctx, nruns):
                     if mod.split(".")[0] not in top:     # standard library / third party / support module
                         continue
                     ctx.count("references_resolved")
-                    if mod.replace(".", os.sep) + ".py" not in files and mod.replace(".", os.sep) + os.sep + "__init__.py" not in files:
+                    if mod.replace(".", os.sep) + ext not in files and mod.replace(".", os.sep) + os.sep + "__init__" + ext not in files:
                         ctx.refute(None, "%s imports %s which no generated file provides" % (f, mod), witness)
     ctx.sample({"cli_run": witness, "files": sorted(files)[:8]})
 
